@@ -20,6 +20,7 @@ def keys_upto(n, alpha=ALPHA):
     return out
 
 
+KEYS2 = keys_upto(2)
 KEYS3 = keys_upto(3)
 KEYS4 = keys_upto(4)
 VALUES = (1, 2, None)
@@ -147,6 +148,33 @@ def replay_history(hist, mk=lambda k: list(k)):
     return trie, ref
 
 
+def observed_while_built(col, hist, queries, mk):
+    """the same object is queried (same query objects, hashable spellings included) after every update: an answer given before an update must not outlive it"""
+    fn = "ural.classes.trie_dict.TrieDict"
+    trie = TrieDict()
+    ref = {}
+    sentinel = object()
+    for n, (k, v) in enumerate(hist):
+        trie[mk(k)] = v
+        ref[tuple(k)] = v
+        H = [[list(k_), v_] for k_, v_ in hist[:n + 1]]
+        for q in queries:
+            qq = mk(q)
+            col.count("observed-between-updates")
+            r = call(trie.longest_matching_prefix_value, qq)
+            exp = lpv_ref(ref, q)
+            if r[0] != "ok" or r[1] is not exp:
+                col.violation("longest_matching_prefix_value", fn + ".longest_matching_prefix_value",
+                              {"history": H, "query": list(q), "queried_after_every_update": True, "key_kind": type(qq).__name__}, repr(r), repr(exp))
+            r = call(trie.get, qq, sentinel)
+            exp = ref.get(q, sentinel)
+            if r[0] != "ok" or r[1] is not exp:
+                col.violation("get", fn + ".get", {"history": H, "query": list(q), "queried_after_every_update": True, "key_kind": type(qq).__name__}, repr(r), repr(exp))
+        r = call(len, trie)
+        if r != ("ok", len(ref)):
+            col.violation("len", fn + ".__len__", H, list(r), len(ref))
+
+
 def shard_worker(job):
     tier, seed, first_ops, maxlen = job
     col = Collector("C10", tier, seed)
@@ -157,6 +185,9 @@ def shard_worker(job):
             trie, ref = replay_history(hist)
             check_state(col, trie, ref, hist, KEYS4)
             col.nontriv(tuple(sorted((k, repr(v)) for k, v in ref.items())))
+            if len(hist) >= 2:
+                for mk in (tuple, "".join):
+                    observed_while_built(col, hist, KEYS2, mk)
             if len(hist) < maxlen:
                 for op in OPS:
                     stack.append(hist + [op])
@@ -173,8 +204,12 @@ def main():
         inp = rp["input"]
         hist = inp["history"] if isinstance(inp, dict) else inp
         hist = [(tuple(k), v) for k, v in hist]
-        trie, ref = replay_history(hist)
-        check_state(col, trie, ref, hist, KEYS4)
+        if isinstance(inp, dict) and inp.get("queried_after_every_update"):
+            mk = {"str": "".join, "tuple": tuple}.get(inp.get("key_kind"), list)
+            observed_while_built(col, hist, KEYS2 + [tuple(inp["query"])], mk)
+        else:
+            trie, ref = replay_history(hist)
+            check_state(col, trie, ref, hist, KEYS4)
         col.rule = "replay"
         col.dump(a.out)
         return
@@ -200,6 +235,7 @@ def main():
         trie, ref = replay_history(hist, mk)
         qs = [tuple(rnd.choice(alpha) for _ in range(rnd.randint(0, 6))) for _ in range(12)] + [k for k, _ in hist]
         check_state(col, trie, ref, hist, qs, mk)
+        observed_while_built(col, hist, qs[:8] + [k for k, _ in hist], mk)
         col.nontriv(("rnd", i))
         if i < 3:
             col.sample({"random_history": [[list(k), v] for k, v in hist], "key_kind": kind})
